@@ -4,7 +4,10 @@ set -eu
 ROOT="$(cd "$(dirname "$0")" && pwd)"
 export CARGO_NET_OFFLINE=true
 cd "$ROOT/harness"
+cargo build --offline --profile verifrel -p vcheck --target-dir "$ROOT/harness/target-rel" &
+rel=$!
 cargo build --offline --profile verif -p vcheck
+wait $rel
 if [ -f shim/iofault.c ]; then
   gcc -O2 -fPIC -shared -o shim/iofault.so shim/iofault.c -ldl
 fi
